@@ -649,7 +649,7 @@ func main() {
 		Required: func(string) []string { return []string{"pairs", "perm", "edit", "op-sequences"} },
 		Deadline: func(tier string) time.Duration {
 			if tier == "thorough" {
-				return 90 * time.Minute
+				return 25 * time.Minute
 			}
 			return 8 * time.Minute
 		},
